@@ -112,9 +112,9 @@ theorem ANetKind.sexp_clean (k : ANetKind) (h : k.okB = true) : k.sexp.clean := 
   | scalar a =>
     simp only [ANetKind.okB, Bool.and_eq_true] at h
     exact a.sexp_clean h.1.1
-  | bit bi bn i =>
+  | bit bi bn i j =>
     simp only [ANetKind.okB, Bool.and_eq_true] at h
-    exact clean_list _ ⟨by kw, clean_ident _ h.1.1.1.2, clean_qtok _ h.1.1.2, trivial⟩
+    exact clean_list _ ⟨by kw, clean_ident _ h.2, clean_qtok _ h.1.1.1.2, trivial⟩
 
 theorem ANet.sexp_clean (n : ANet) (hk : n.kind.okB = true) (hp : ∀ pin ∈ n.pins, pin.SpOK) : n.sexp.clean :=
   clean_list _ ⟨by kw, n.kind.sexp_clean hk,
